@@ -302,7 +302,8 @@ def check_node_clone(ctx, i):
     for runner in ("sync", "async"):
         other = ["other-value"]
         inputs = {"items": [f"it{j}" for j in range(n)], ext["other"]: other}
-        override = ["cfg-from-caller"] if rng.random() < 0.4 else None
+        # sometimes the caller's value is EQUAL to the bound one but another object: still the caller's
+        override = (["cfg-from-caller"] if rng.random() < 0.5 else list(CFG)) if rng.random() < 0.45 else None
         if override is not None:
             inputs[ext["cfg"]] = override  # a run-time value beats the inner binding, also through a mapping node
         sched = rt.Sched(default="rand", rng=rng) if runner == "async" else None
